@@ -150,6 +150,17 @@ def stdReply (l : Str) : Option (List Str) :=
     some [lit "write memory\nBuilding configuration...\n  Compressed configuration from 106098 bytes to 30504 bytes[OK]\n" ++ prompt]
   else none
 
+/-- the same exchange on a device that does not ask `Save? [yes/no]` (configuration unmodified) -/
+def reloadPartsNA (withDo : Bool) : List Str :=
+  [(if withDo then lit "do " else []) ++ lit "reload in 2\nProceed with reload? [confirm]", prompt]
+
+/-- Standard replies of the two dialogue variants: `noAsk = true` — `reload in 2` is answered
+directly with `Proceed with reload? [confirm]`. -/
+def stdReplyV (noAsk : Bool) (l : Str) : Option (List Str) :=
+  if noAsk && l == reloadCmd then some (reloadPartsNA false)
+  else if noAsk && l == doReloadCmd then some (reloadPartsNA true)
+  else stdReply l
+
 structure SimSt where
   /-- rest of the reply in progress: the device reads one line per part -/
   parts : List Str := []
@@ -169,7 +180,7 @@ def occInc (occ : List (Str × Nat)) (l : Str) : List (Str × Nat) :=
 
 /-- One line. `special`: scripted replies (fault injection), per line text and occurrence, the
 last one repeats. -/
-def simLine (special : List (Str × List (List Str))) (st : SimSt) (l : Str) : SimSt × Str :=
+def simLine (special : List (Str × List (List Str))) (noAsk : Bool) (st : SimSt) (l : Str) : SimSt × Str :=
   match st.parts with
   | p :: ps => ({ st with parts := ps }, l ++ ['\n'] ++ p)
   | [] =>
@@ -182,7 +193,7 @@ def simLine (special : List (Str × List (List Str))) (st : SimSt) (l : Str) : S
       let k := occOf st.occ l
       start { st with occ := occInc st.occ l } (rs.getD (min k (rs.length - 1)) [])
     | none =>
-      match stdReply l with
+      match stdReplyV noAsk l with
       | some r => start st r
       | none =>
         if isChange l then
@@ -191,15 +202,16 @@ def simLine (special : List (Str × List (List Str))) (st : SimSt) (l : Str) : S
           | [] => (st, replyFor l {})
         else (st, l ++ ['\n'] ++ prompt)
 
-def simLines (special : List (Str × List (List Str))) (st : SimSt) : List Str → SimSt × Str
+def simLines (special : List (Str × List (List Str))) (noAsk : Bool) (st : SimSt) : List Str → SimSt × Str
   | [] => (st, [])
   | l :: ls =>
-    let (st1, o1) := simLine special st l
-    let (st2, o2) := simLines special st1 ls
+    let (st1, o1) := simLine special noAsk st l
+    let (st2, o2) := simLines special noAsk st1 ls
     (st2, o1 ++ o2)
 
-/-- The scripted device: all lines of one `Send` are answered at once. -/
-def simDevice (special : List (Str × List (List Str))) : Device SimSt where
-  step st s := simLines special st (splitOnNL s)
+/-- The scripted device: all lines of one `Send` are answered at once. `noAsk` selects the dialogue
+variant of the reload exchange (with / without the `Save? [yes/no]` question). -/
+def simDevice (special : List (Str × List (List Str))) (noAsk : Bool) : Device SimSt where
+  step st s := simLines special noAsk st (splitOnNL s)
 
 end NA.Ios
